@@ -127,6 +127,8 @@ def to_impl(c, cid):
     out["params"] = {k: (v if isinstance(v, (bool, int)) else hx(v)) for k, v in (c.get("params") or {}).items()}
     if "trial" in c and c["trial"]:
         out["trial"] = {k: [hx(d) for d in v] for k, v in c["trial"].items()}
+    if c.get("parallel"):
+        out["parallel"] = to_impl(c["parallel"], cid)
     return out
 
 
